@@ -198,6 +198,11 @@ Fixpoint match_chain (name : string) (s : string) (ms : list (list (Z * Z))) : c
       end
   end.
 
+Definition regex_key (src subj : string) : string :=
+  ("RE:" ++ hex_of_string src ++ ":" ++ hex_of_string subj)%string.
+Definition pow_key (x y : f64) : string :=
+  ("POW:" ++ hex16_of_Z (bits_of_f x) ++ ":" ++ hex16_of_Z (bits_of_f y))%string.
+
 Section Eval.
   Variable fmt_num : f64 -> string.
   (* regexp.FindAllStringSubmatchIndex(src, subject, -1): None = the driver has not supplied it *)
@@ -218,7 +223,7 @@ Section Eval.
   Definition need_regex (src subj : string) : M (list (list (Z * Z))) :=
     match regex_find src subj with
     | Some r => ret r
-    | None => fun _ => Need ("RE " ++ hex_of_string src ++ " " ++ hex_of_string subj)%string
+    | None => fun _ => Need (regex_key src subj)
     end.
 
   (* extractMatches / callMatchFunc: follow the `next` chain of a matcher function *)
@@ -299,7 +304,13 @@ Section Eval.
         | NVariable name =>
             if seqb name "" then ret input
             else r <- lookup_var env name ;;
-                 ret (match r with Some v => v | None => None end)
+                 ret (match r with
+                      | Some v => v
+                      | None => match builtin_sig name with      (* baseEnv is the outermost scope *)
+                                | Some _ => Some (VFun (CBuiltin name))
+                                | None => None
+                                end
+                      end)
         | NName name _ => ret (eval_name_value name input)
         | NPath steps keep => eval_path f steps keep input env
         | NNegation rhs =>
@@ -927,7 +938,7 @@ Section Eval.
           match args with
           | [AFloat x; AFloat y] =>
               match pow_fn x y with
-              | None => fun _ => Need ("POW " ++ hex16_of_Z (bits_of_f x) ++ " " ++ hex16_of_Z (bits_of_f y))%string
+              | None => fun _ => Need (pow_key x y)
               | Some r => if is_inf r || is_nan r then fail (ELib "power: out of range") else ret (Some (VNum r))
               end
           | _ => badargs
